@@ -399,6 +399,127 @@ def const_int_(op):
     return const_int(op)
 
 
+
+
+SMALLSTR = "minijinja::value::SmallStr"
+
+
+def _mentions_buf(x):
+    """does a place / operand / rvalue (JSON) project the inline buffer of a SmallStr"""
+    if isinstance(x, dict):
+        if x.get("n") == "buf" and x.get("of") == SMALLSTR:
+            return True
+        return any(_mentions_buf(v) for v in x.values())
+    if isinstance(x, list):
+        return any(_mentions_buf(v) for v in x)
+    return False
+
+
+def check_inline_padding(ctx, prog, tag):
+    """V11 (after seed C07-7): an inline string is the first `len` bytes of its buffer; the rest is padding.  `==` and
+    the hash look at `as_str()`; anything that observes the whole buffer (comparing the arrays, hashing them) tells
+    'a' from 'a\0' differently from `==` - the order then says Equal for values that are not equal.  Every read of
+    `SmallStr.buf` is therefore a slice `[..len]` of the same object (or the derived Clone)."""
+    rule = "C07.V11.inline-string-padding-is-never-observed"
+    n = 0
+    for f in prog.fns.values():
+        if f.crate != "minijinja":
+            continue
+        if f.path.startswith("<" + SMALLSTR + " as core::clone::Clone>"):
+            continue
+        body_reads = []
+        for bb, i, st in f.all_stmts():
+            if st["k"] != "assign":
+                continue
+            if _mentions_buf(st["rv"]):
+                body_reads.append((bb, st))
+        call_reads = [(c, k) for c in f.calls() for k, a in enumerate(c.args) if _mentions_buf(a)]
+        if not body_reads and not call_reads:
+            continue
+        short = f.path.split("::")[-1]
+        for bb, st in body_reads:
+            rv = st["rv"]
+            plain_ref = rv["k"] == "ref" and "p" not in st["place"] and rv["place"].get("p") and \
+                isinstance(rv["place"]["p"][-1], dict) and rv["place"]["p"][-1].get("n") == "buf"
+            if not plain_ref:
+                n += 1
+                ctx.ob(rule, "%s%s|%s" % (tag, short, rv["k"]), False,
+                       "%s reads the whole inline buffer of a SmallStr (%s), padding included" % (short, rv["k"]), f.where(bb))
+        for c in f.calls():
+            for k, a in enumerate(c.args):
+                # the function projects `SmallStr.buf` somewhere (checked above): an argument whose provenance goes
+                # through a field called `buf` is that buffer
+                if not (_mentions_buf(a) or any("buf" in o.proj for o in flow.origins(f, a))):
+                    continue
+                n += 1
+                ok = False
+                if c.name.endswith("::index") or c.name.endswith("::index_mut"):
+                    if k == 0 and len(c.args) > 1:
+                        for o in flow.origins(f, c.args[1]):
+                            if o.kind == "agg" and o.rv.get("adt", "").startswith("core::ops::range::Range") and o.rv["ops"]:
+                                conv = lambda k: 0 if (k.name.endswith(">::from") or k.name.endswith(">::into")
+                                                       or k.name.endswith("::unwrap") or k.name.endswith(">::try_from")) else None
+                                ends = flow.origins(f, o.rv["ops"][-1], through_calls=conv)
+                                if ends and all("len" in e.proj for e in ends):
+                                    ok = True
+                ctx.ob(rule, "%s%s|%s" % (tag, short, c.name.split("::")[-1]), ok,
+                       "%s hands the whole inline buffer of a SmallStr to %s: the bytes after `len` are padding, and an "
+                       "order / hash / equality computed over them disagrees with `==` on the string ('a' vs 'a\\0')"
+                       % (short, c.name), f.where(c.bb))
+    ctx.floor("C07.V11 reads of the inline string buffer" + tag, n, 1)
+
+
+def check_float_order_vs_equality(ctx, prog, tag, rule="C07.V3.bitwise-float-order-only-for-unequal-floats", floor_name="C07.V3"):
+    # ---- V3: the float order agrees with float equality.  `==` on values compares floats with IEEE `==`
+    # (-0.0 == 0.0); an order computed from the bit pattern (f64::total_cmp, to_bits) tells them apart, so a
+    # bit-pattern comparison may only be reached when the two floats are not `==`, and the `==` side is Equal.
+    bitcmp = {"core::f64::<impl f64>::total_cmp", "core::f32::<impl f32>::total_cmp"}
+    for f in prog.fns.values():
+        if f.crate == "minijinja" and f.path.startswith("minijinja::value") and \
+                any(c.name.endswith("::to_bits") for c in f.calls()) and \
+                f.locals[0].get("adt") == "core::cmp::Ordering":
+            bitcmp.add(f.path)
+    n3 = 0
+    for f in prog.fns.values():
+        if f.crate != "minijinja" or f.path in bitcmp:
+            continue
+        for c in f.calls():
+            if c.name not in bitcmp:
+                continue
+            n3 += 1
+            guarded = False
+            eq_side_equal = False
+            args_src = [sorted(o.key() for o in flow.origins(f, a)) for a in c.args[:2]]
+            for (sb, taken) in flow.guards(f, c.bb):
+                cd = flow.cond_of(f, sb)
+                if cd.kind != "bin" or cd.rv["op"] not in ("Eq", "Ne") or cd.rv.get("ty") not in ("f64", "f32"):
+                    continue
+                side = flow.bool_true_labels(taken)
+                if side is None:
+                    continue
+                is_eq_true = (side != cd.neg) if cd.rv["op"] == "Eq" else (side == cd.neg)
+                ops_src = [sorted(o.key() for o in flow.origins(f, cd.rv[x])) for x in ("a", "b")]
+                if not is_eq_true and (ops_src == args_src or ops_src == args_src[::-1]):
+                    guarded = True
+                    eq_edges = cfg.bool_edges(f, sb, (cd.rv["op"] == "Eq") != cd.neg)
+                    blocks = set()
+                    for e in eq_edges:
+                        blocks |= cfg.reach_from(f, e[1], avoid={c.bb})
+                    for bb, i, st in f.all_stmts():
+                        if bb in blocks and st["k"] == "assign" and st["place"] == {"l": 0}:
+                            if st["rv"]["k"] == "use":
+                                cst = st["rv"]["op"].get("c")
+                                if cst is not None and ("Equal" in cst.get("d", "") or str(cst.get("int")) == "0"):
+                                    eq_side_equal = True
+                            elif st["rv"]["k"] == "agg" and st["rv"].get("variant") == "Equal":
+                                eq_side_equal = True
+            ctx.ob(rule, tag + f.path, guarded and eq_side_equal,
+                   "%s orders two floats by their bit pattern (%s) without first returning Equal when they are "
+                   "`==`: -0.0 and 0.0 are equal values but would be ordered, so `<`, sort, unique, groupby and "
+                   "map lookup disagree with `==`" % (f.path, c.name.split("::")[-1]), f.where(c.bb))
+    ctx.floor(floor_name + " bit-pattern float comparisons in the value order" + tag, n3, 1)
+
+
 def run(ctx):
     ctx.explain("C07 (variant-level clauses): abstract interpretation of Value::eq / cmp / hash / kind, ops::coerce, "
                 "as_f64 and the integer conversions over all 169 ordered pairs of ValueRepr variants (discriminants "
@@ -647,54 +768,8 @@ def run(ctx):
         else:
             ctx.count("configs without the builtin filters")
 
-        # ---- V3: the float order agrees with float equality.  `==` on values compares floats with IEEE `==`
-        # (-0.0 == 0.0); an order computed from the bit pattern (f64::total_cmp, to_bits) tells them apart, so a
-        # bit-pattern comparison may only be reached when the two floats are not `==`, and the `==` side is Equal.
-        bitcmp = {"core::f64::<impl f64>::total_cmp", "core::f32::<impl f32>::total_cmp"}
-        for f in prog.fns.values():
-            if f.crate == "minijinja" and f.path.startswith("minijinja::value") and \
-                    any(c.name.endswith("::to_bits") for c in f.calls()) and \
-                    f.locals[0].get("adt") == "core::cmp::Ordering":
-                bitcmp.add(f.path)
-        n3 = 0
-        for f in prog.fns.values():
-            if f.crate != "minijinja" or f.path in bitcmp:
-                continue
-            for c in f.calls():
-                if c.name not in bitcmp:
-                    continue
-                n3 += 1
-                guarded = False
-                eq_side_equal = False
-                args_src = [sorted(o.key() for o in flow.origins(f, a)) for a in c.args[:2]]
-                for (sb, taken) in flow.guards(f, c.bb):
-                    cd = flow.cond_of(f, sb)
-                    if cd.kind != "bin" or cd.rv["op"] not in ("Eq", "Ne") or cd.rv.get("ty") not in ("f64", "f32"):
-                        continue
-                    side = flow.bool_true_labels(taken)
-                    if side is None:
-                        continue
-                    is_eq_true = (side != cd.neg) if cd.rv["op"] == "Eq" else (side == cd.neg)
-                    ops_src = [sorted(o.key() for o in flow.origins(f, cd.rv[x])) for x in ("a", "b")]
-                    if not is_eq_true and (ops_src == args_src or ops_src == args_src[::-1]):
-                        guarded = True
-                        eq_edges = cfg.bool_edges(f, sb, (cd.rv["op"] == "Eq") != cd.neg)
-                        blocks = set()
-                        for e in eq_edges:
-                            blocks |= cfg.reach_from(f, e[1], avoid={c.bb})
-                        for bb, i, st in f.all_stmts():
-                            if bb in blocks and st["k"] == "assign" and st["place"] == {"l": 0}:
-                                if st["rv"]["k"] == "use":
-                                    cst = st["rv"]["op"].get("c")
-                                    if cst is not None and ("Equal" in cst.get("d", "") or str(cst.get("int")) == "0"):
-                                        eq_side_equal = True
-                                elif st["rv"]["k"] == "agg" and st["rv"].get("variant") == "Equal":
-                                    eq_side_equal = True
-                ctx.ob("C07.V3.bitwise-float-order-only-for-unequal-floats", tag + f.path, guarded and eq_side_equal,
-                       "%s orders two floats by their bit pattern (%s) without first returning Equal when they are "
-                       "`==`: -0.0 and 0.0 are equal values but would be ordered, so `<`, sort, unique, groupby and "
-                       "map lookup disagree with `==`" % (f.path, c.name.split("::")[-1]), f.where(c.bb))
-        ctx.floor("C07.V3 bit-pattern float comparisons in the value order" + tag, n3, 1)
+        check_float_order_vs_equality(ctx, prog, tag)
+        check_inline_padding(ctx, prog, tag)
         if cname == "MAX":
             ctx.sample({"kind table": {k: sorted(v) for k, v in T.kind.items()},
                         "coerce may-Some pairs": sorted("%s,%s" % k for k, v in T.coerce.items() if "Some" in v or "?" in v)[:60],
